@@ -5,6 +5,28 @@ from ..index import walk_no_nested
 from ..util import one_shot_reuse
 
 
+def cross_wired_options(ctx, rule_id, files, what):
+    n = 0
+    found = []
+    for rel in files:
+        m = ctx.ix.module(rel)
+        for fd in [x for x in ast.walk(m.tree) if isinstance(x, (ast.FunctionDef, ast.AsyncFunctionDef))]:
+            params = {a.arg for a in fd.args.args + fd.args.kwonlyargs}
+            for st in walk_no_nested(fd):
+                if isinstance(st, ast.Assign) and len(st.targets) == 1 and isinstance(st.targets[0], ast.Attribute) and isinstance(st.targets[0].value, ast.Name) \
+                        and st.targets[0].value.id == 'self' and st.targets[0].attr in params:
+                    n += 1
+                    if isinstance(st.value, ast.Name) and st.value.id in params and st.value.id != st.targets[0].attr:
+                        # the parameter of that name must not be stored anywhere else in the method either (a deliberate swap would store both)
+                        found.append((rel, fd, st))
+    ctx.need(rule_id, n, 3, 'parameters stored in the attribute of the same name')
+    for rel, fd, st in found:
+        ctx.emit(rule_id, False, rel, st, f'{fd.name}: `{ast.unparse(st)}` stores the parameter `{st.value.id}` under the name of the parameter `{st.targets[0].attr}`: the value the caller passed for '
+                 f'`{st.targets[0].attr}` is ignored', key=f'option-wiring:{fd.name}:{st.targets[0].attr}', what=f'{what}: option {st.targets[0].attr} is wired to {st.value.id}')
+    if not found:
+        ctx.emit(rule_id, True, files[0], None, f'{n} parameters stored under their own name; none stored under the name of another parameter', key='option-wiring')
+
+
 def single_pass_iterators(ctx, rule_id, files, what):
     """no function of `files` consumes a single-pass iterator twice (see util.one_shot_reuse)"""
     nfun = 0
@@ -75,4 +97,9 @@ def register(prop, title):
                               'property are consumed once: a second consumer, or a consumer inside a later loop, silently sees an empty sequence')
     def s1(ctx, prop=prop, title=title):
         single_pass_iterators(ctx, f'{prop}-S1', files_of(ctx, prop), title)
+
+    @rule(prop, f'{prop}-S2', 'option wiring: where a method stores one of its parameters in an attribute that carries the name of ANOTHER of its parameters '
+                              '(`self.yield_overflow = yield_invalid`), the option the caller set never arrives and a different one is used in its place')
+    def s2(ctx, prop=prop, title=title):
+        cross_wired_options(ctx, f'{prop}-S2', files_of(ctx, prop), title)
     return s1
